@@ -85,6 +85,9 @@ func Check(env *core.Env, rep *core.Report) *core.Result {
 			note("Cancel_"+c, r, "negative control (pinned doneCh hand-shake): "+r.Violated+" violated as required")
 		})
 	}
+	// two runs of tasks with the same name (outside the model's numbering of runs)
+	sameName := 0
+	run(func() { sameName = checkSameName(env, rep) })
 	// (b) scenarios with the outcomes the model allows
 	gens := []string{"r1c1", "r1c2", "r2c1", "r2c2", "s2", "e1", "e2", "e3", "e2c2"}
 	if thorough {
@@ -313,6 +316,7 @@ func Check(env *core.Env, rep *core.Report) *core.Result {
 		"distinct_nontrivial":                      distinct.N(),
 		"rule":                                     "scenario = (mode runner|scheduler|condition-error, number of Cancel calls, hold point of every run: late/waiting, before-hook, command 1, between commands, command 2, after-hook, done) as enumerated by CancelGen.tla with the set of outcomes Cancel.tla allows; each executed in its own child process against the real TaskRunner/Scheduler with gates; distinct = distinct scenarios executed",
 		"model_runs":                               modelRuns,
+		"same_task_name_scenarios":                 sameName,
 		"binding_selftest":                         selftest,
 		"samples":                                  samples.List(),
 		"checker_cmds":                             cmds,
